@@ -305,6 +305,9 @@ def replay_impl(t, charsub, reserved, history, sp, limit=1.5, spec=None):
                 results.append(r)
             dump, passes = impl_dump(fn)
     except (core.Timeout, _CpuTimeout):
+        if limit < 10:
+            # confirm with a generous limit before calling it non-termination
+            return replay_impl(t, charsub, reserved, history, sp, limit=15.0, spec=spec)
         results.append('timeout')
         return results, ('timeout',), 0, 'request %d did not terminate within %.1f s of CPU time' % (len(results), limit)
     return results, dump, passes, bad
@@ -432,9 +435,13 @@ def past_static(cfg, strict_before):
 # one block = one configuration, searched breadth-first to the depth bound
 # ---------------------------------------------------------------------------------------------------
 def run_block(block):
-    import time
+    import time, gc
     cpu0 = time.process_time()
-    rep = _search(block)
+    gc.disable()        # the search creates no reference cycles; a full collection over 10^5 states would
+    try:                # look like a hanging request to the CPU-time alarm
+        rep = _search(block)
+    finally:
+        gc.enable()
     # CPU time is recorded as evidence only (the machine may be shared); it never steers the exploration
     rep.count('cpu_ms', int((time.process_time() - cpu0) * 1000))
     return rep
